@@ -41,3 +41,21 @@ Theorem C03_docvalue_region_roundtrip :
     (N.of_nat (length fpre) + LayoutProof.nlenb (DvProof.enc_region snappy_enc chunks))%N = Some (concat chunks).
 Proof. exact DvProof.dv_region_roundtrip. Qed.
 Print Assumptions C03_docvalue_region_roundtrip.
+
+Require ZV.BuildAlg ZV.DvBuild.
+
+(* the builder computes the doc values FROM THE POSTINGS (writeDicts walks the sorted terms and
+   appends each to the buffer of every document in its postings list): that is the specification's
+   doc-value content, the document's own terms in ascending order - inverted lists and doc values of
+   a built segment describe the same relation (geo-shape values aside, which are added afterwards) *)
+Theorem C03_doc_values_from_postings : forall b f,
+  (forall d, List.In d b -> Spec.doc_shape d f = None) ->
+  BuildAlg.dv_from_postings (Spec.indexed b) (Spec.spec_dict b f) = Spec.spec_dv_field b f.
+Proof. exact DvBuild.dv_from_postings_is_spec. Qed.
+Print Assumptions C03_doc_values_from_postings.
+
+(* the instance the correspondence run executes next to zapx (request 22) *)
+Theorem C03_dv_run_is_spec : forall b, (forall d f, List.In d b -> Spec.doc_shape d f = None) ->
+  BuildAlg.dv_run b = Spec.c_dv (Spec.spec_of_batch b).
+Proof. exact DvBuild.dv_run_is_spec. Qed.
+Print Assumptions C03_dv_run_is_spec.
